@@ -19,7 +19,7 @@ from .. import oracles
 PROP = "C03"
 NAME = "c03_driver"
 RUNS = {"quick": 3500, "thorough": 60000}
-TIMEOUT = 300
+TIMEOUT = 120
 CPU_LIMIT = 4
 CHUNK = 50
 ISOLATE = True  # one forked child per run with a hard CPU limit (optimisers may hang inside C code)
@@ -78,8 +78,55 @@ class Runaway(BaseException):
 CALL_GUARD = 3000
 
 
+class Fun:
+    """The harness's user functions as picklable callables (they may travel to worker processes)."""
+
+    def __init__(self, kind, dim, sign=1.0):
+        self.kind, self.dim, self.sign = kind, dim, sign
+        self.a = array([0.3 + 0.4 * i for i in range(dim)])
+        self.c = array([1.0 + 0.5 * i for i in range(dim)])
+
+    def __call__(self, x):
+        k, dim, sign = self.kind, self.dim, self.sign
+        if k == "f_rosen":
+            return sign * float(sum(10.0 * (x[1:] - x[:-1] ** 2) ** 2 + (1 - x[:-1]) ** 2))
+        if k == "df_rosen":
+            g = zeros(dim)
+            g[:-1] += -40.0 * x[:-1] * (x[1:] - x[:-1] ** 2) - 2 * (1 - x[:-1])
+            g[1:] += 20.0 * (x[1:] - x[:-1] ** 2)
+            return sign * g
+        if k == "f_quad":
+            return sign * float(self.c @ ((x - self.a) ** 2))
+        if k == "df_quad":
+            return sign * 2 * self.c * (x - self.a)
+        if k == "g2":
+            return array([x.sum() - 1.0, -x[0] - 0.5])
+        if k == "dg2":
+            j = zeros((2, dim))
+            j[0, :] = 1.0
+            j[1, 0] = -1.0
+            return j
+        if k == "g1":
+            return array([x.sum() - 1.0])
+        if k == "dg1":
+            return array([[1.0] * dim])
+        if k == "h":
+            return array([x[0] - 0.25 * x[-1] - 0.1])
+        if k == "dh":
+            j = zeros((1, dim))
+            j[0, 0] += 1.0
+            j[0, -1] += -0.25
+            return j
+        raise ValueError(k)
+
+
 class Tracked:
     """A user callable with call log, durations and a fault plan."""
+
+    def __getstate__(self):
+        # in a worker process the callable keeps its behaviour (fault plan) but reports nothing
+        return {**self.__dict__, "ctx": None, "clock": None, "points": [], "calls": []}
+
 
     def __init__(self, name, fn, plan, clock, ctx, kind):
         self.name, self.fn, self.plan, self.clock, self.ctx, self.kind = name, fn, plan, clock, ctx, kind
@@ -97,17 +144,20 @@ class Tracked:
         if new:
             self.points.append(key)
         plan = self.plan
-        self.clock.advance(plan["duration"])
-        if plan["jump_at"] and self.kind == "f" and self.n_calls == plan["jump_at"]:
-            self.clock.advance(plan["jump"])
-            self.ctx.fire("clock_jump")
+        if self.clock is not None:
+            self.clock.advance(plan["duration"])
+            if plan["jump_at"] and self.kind == "f" and self.n_calls == plan["jump_at"]:
+                self.clock.advance(plan["jump"])
+                self.ctx.fire("clock_jump")
         j = len(self.points) if new else self.points.index(key) + 1
         if plan["nan"].get(self.name) == j:
-            self.ctx.fire("callable_returns_nan")
+            if self.ctx is not None:
+                self.ctx.fire("callable_returns_nan")
             v = self.fn(x)
             return v * float("nan")
         if plan["raise"].get(self.name) == j:
-            self.ctx.fire("callable_raises_ValueError")
+            if self.ctx is not None:
+                self.ctx.fire("callable_raises_ValueError")
             raise ValueError(f"injected failure of {self.name} at its {j}-th distinct point")
         return self.fn(x)
 
@@ -141,56 +191,26 @@ def build_problem(cfg, plan, clock, ctx):
             p.minimize_objective = False
         return p, tracked
     p = OptimizationProblem(ds)
-    if cfg["objective"] == 1 and dim >= 2:
-        def f(x):
-            return sign * float(sum(10.0 * (x[1:] - x[:-1] ** 2) ** 2 + (1 - x[:-1]) ** 2))
-
-        def df(x):
-            g = zeros(dim)
-            g[:-1] += -40.0 * x[:-1] * (x[1:] - x[:-1] ** 2) - 2 * (1 - x[:-1])
-            g[1:] += 20.0 * (x[1:] - x[:-1] ** 2)
-            return sign * g
-    else:
-        def f(x):
-            return sign * float(c @ ((x - a) ** 2))
-
-        def df(x):
-            return sign * 2 * c * (x - a)
+    rosen = cfg["objective"] == 1 and dim >= 2
+    f = Fun("f_rosen" if rosen else "f_quad", dim, sign)
+    df = Fun("df_rosen" if rosen else "df_quad", dim, sign)
     tf = tracked["f"] = Tracked("f", f, plan, clock, ctx, "f")
     tdf = tracked["df"] = Tracked("df", df, {**plan, "nan": {}, "raise": {}}, clock, ctx, "df")
     p.objective = MDOFunction(tf, "f", jac=tdf if cfg["user_jac"] else None)
     if cfg["maximize"]:
         p.minimize_objective = False
     if cfg["ineq"]:
-        if cfg["ineq"] == 2 and dim >= 2:
-            def g(x):
-                return array([x.sum() - 1.0, -x[0] - 0.5])
-
-            def dg(x):
-                j = zeros((2, dim))
-                j[0, :] = 1.0
-                j[1, 0] = -1.0
-                return j
-        else:
-            def g(x):
-                return array([x.sum() - 1.0])
-
-            def dg(x):
-                return array([[1.0] * dim])
+        two = cfg["ineq"] == 2 and dim >= 2
+        g = Fun("g2" if two else "g1", dim)
+        dg = Fun("dg2" if two else "dg1", dim)
         tg = tracked["g"] = Tracked("g", g, plan, clock, ctx, "g")
         tdg = tracked["dg"] = Tracked("dg", dg, {**plan, "nan": {}, "raise": {}}, clock, ctx, "dg")
         # (optionally a "positive" constraint with an offset: the problem records its standard form -(g - value))
         p.add_constraint(MDOFunction(tg, "g", jac=tdg if cfg["user_jac"] else None), constraint_type="ineq",
                          positive=cfg.get("g_positive", False), value=cfg.get("g_value", 0.0))
     if cfg["eq"]:
-        def h(x):
-            return array([x[0] - 0.25 * x[-1] - 0.1])
-
-        def dh(x):
-            j = zeros((1, dim))
-            j[0, 0] += 1.0
-            j[0, -1] += -0.25
-            return j
+        h = Fun("h", dim)
+        dh = Fun("dh", dim)
         th = tracked["h"] = Tracked("h", h, plan, clock, ctx, "h")
         tdh = tracked["dh"] = Tracked("dh", dh, {**plan, "nan": {}, "raise": {}}, clock, ctx, "dh")
         p.add_constraint(MDOFunction(th, "h", jac=tdh if cfg["user_jac"] else None), constraint_type="eq")
@@ -323,8 +343,16 @@ def run_driver(ctx, focus):
         if lib_name in ("DIFFERENTIAL_EVOLUTION", "DUAL_ANNEALING"):
             settings["seed"] = 1 + t.choice(10, "algo_seed")
         if lib_name == "MultiStart":
-            settings["n_start"] = 2
+            # documented per-level budget: one evaluation of the initial point + the budgets of the n_start
+            # sub-optimisations (automatic split, or opt_algo_max_iter each) must not exceed max_iter; an
+            # inconsistent combination is rejected with a ValueError
+            settings["n_start"] = 2 + t.choice(2, "n_start")
             settings["max_iter"] = max(budget, 3)
+            settings["opt_algo_max_iter"] = t.weighted([3, 1, 1, 1, 1, 1], "opt_algo_max_iter")
+            settings["opt_algo_name"] = t.pick(["SLSQP", "NLOPT_COBYLA"], "opt_algo_name")
+            # parallel sub-optimisations only with COBYLA: SLSQP can loop forever at recorded points (10.5), its
+            # worker would then be killed by the CPU limit and gemseo's pool would wait for it forever
+            settings["n_processes"] = 1 + (t.choice(2, "multistart_n_processes") if settings["opt_algo_name"] == "NLOPT_COBYLA" else 0)
         if lib_name.startswith("Augmented_Lagrangian"):
             settings["sub_algorithm_name"] = "L-BFGS-B" if lib_name.endswith("1") else "NELDER-MEAD"
             settings["sub_algorithm_settings"] = {"max_iter": 1 + t.choice(6, "sub_max_iter")}
@@ -357,9 +385,11 @@ def run_driver(ctx, focus):
     cfg["n_exec"] = n_exec
     cfg["reset"] = reset
     ctx.event("cfg", canon(cfg))
-    sig = f"{'DOE' if cfg['doe'] else 'OPT'} {lib_name}"
+    sig = f"{'DOE' if cfg['doe'] else 'OPT'} {lib_name}" + ("/parallel" if settings.get("n_processes", 1) > 1 else "")
     c04_runtime = []
-    if focus == "C04" or t.flag(0.2, "runtime_invariant"):
+    parallel_composite = settings.get("n_processes", 1) > 1
+    # (a store listener is a closure: it would make the problem unpicklable for parallel sub-optimisations)
+    if (focus == "C04" or t.flag(0.2, "runtime_invariant")) and not parallel_composite:
         def listener(x):
             ctx.probe("optimum_checked_while_running")
             try:
@@ -492,6 +522,13 @@ def check_execution(ctx, cfg, sig, e, problem, tracked, result, exc, n_new, allo
                         f"execution {e}: the driver kept calling the functions far beyond its budget of {allowed} ({exc}; {worst} distinct non-probe points); cfg={cfg}")
         ctx.probe(f"endless_loop_at_recorded_points[{cfg['algo']}]")
         raise Inconclusive(f"{cfg['algo']}: {exc}")
+    if cfg["algo"] == "MultiStart":
+        if isinstance(exc, ValueError) and "Multi-start optimization" in str(exc):
+            ctx.probe("multistart_inconsistent_budget_rejected")
+            return
+        if exc is None and use_db and n_new > kw["max_iter"]:
+            ctx.violate("C03.budget_entries", sig + " per-level budget", f"execution {e}: MultiStart recorded {n_new} new entries with max_iter={kw['max_iter']} "
+                        f"(n_start={kw['n_start']}, opt_algo_max_iter={kw['opt_algo_max_iter']}, n_processes={kw['n_processes']}); cfg={cfg}")
     if exc is not None:
         in_scope = not plan["raise"]
         if in_scope:
